@@ -19,10 +19,10 @@ WhyRead(c, o) ==
                              RowIds(o.rows), RowPids(o.rows), [k \in 1 .. Len(exp) |-> ColsOf(o.rows[k])]) IN
          IF w # "" THEN "sorted-" \o w
          ELSE IF o.com # e.com THEN "comments"
-         ELSE IF (o.warned = 1) # e.warned THEN "ignored-fields-warning" ELSE ""
+         ELSE IF e.warned /\ o.warned # 1 THEN "ignored-fields-without-a-warning" ELSE ""
     ELSE IF o.rows # exp THEN "row-values"
     ELSE IF o.com # e.com THEN "comments"
-    ELSE IF (o.warned = 1) # e.warned THEN "ignored-fields-warning"
+    ELSE IF e.warned /\ o.warned # 1 THEN "ignored-fields-without-a-warning"        \* (that nothing else warns is not part of the statement)
     ELSE ""
 
 SameLine(w, ol) == IF w.k = "C" THEN ol.k = "C" /\ ol.lead = w.lead /\ ol.body = w.body
